@@ -1,43 +1,86 @@
 #!/bin/bash
 # Runs every confirmed seeded change in /verif/seeded against the quick checks that should see it
-# and writes seeded/MATRIX.md. /repo must be clean; nothing else may use /repo meanwhile.
+# and writes seeded/MATRIX.md.
+#   tools/seed_matrix.sh hermetic   seeds whose checks are seqmc / crashmc / schedmc only: applied in
+#                                   the scratch worktree /tmp/repo-seed, harness built against it into
+#                                   /verif/target-seed (never touches /repo) -> seeded/.matrix.hermetic
+#   tools/seed_matrix.sh repo       the rest (server binary, ASan workspace, real-binary slices):
+#                                   applied to /repo, bin/check, reverted (/repo must be clean and
+#                                   nothing else may use it meanwhile)          -> seeded/.matrix.repo
+#   tools/seed_matrix.sh merge      seeded/MATRIX.md from the two parts
 cd /verif
-OUT=seeded/MATRIX.md
-TMP=$(mktemp)
-echo "| seeded change | check | exit | first new signature |" > $TMP
-echo "|---|---|---|---|" >> $TMP
+MODE=${1:-merge}
+checks_for() {
+  n=$1; id=${n%%-*}
+  case "$n" in
+    C01-header-only*) echo "C01" ;;
+    C01-*) echo "C01 C02" ;;
+    C15-finite*) echo "C15 C03" ;;
+    C15-not*) echo "C15 C11" ;;
+    C09-compaction-takes*) echo "C09 C05" ;;
+    C16-compaction-keys*) echo "C06" ;;
+    C16-cancelled*) echo "C16" ;;
+    C04-version*|C05-version*) echo "C04 C05" ;;
+    *) echo "$id" ;;
+  esac
+}
+needs_repo() {
+  n=$1
+  grep -q "kyrodb_server.rs" seeded/$n/patch.diff && return 0
+  for c in $(checks_for $n); do case "$c" in C10|C14|C15|C16|C17) return 0 ;; esac; done
+  return 1
+}
+if [ "$MODE" = "merge" ]; then
+  { echo "| seeded change | check | exit | first new signature |"; echo "|---|---|---|---|"; cat seeded/.matrix.hermetic seeded/.matrix.repo 2>/dev/null | sort; } > seeded/MATRIX.md
+  echo "merged: $(grep -c '^| C' seeded/MATRIX.md) rows"; exit 0
+fi
+OUT=seeded/.matrix.$MODE
+: > $OUT.tmp
 for d in seeded/*/; do
   n=$(basename $d)
   [ -f $d/patch.diff ] || continue
-  id=${n%%-*}
-  case "$n" in
-    C01-*) checks="C01 C02" ;;
-    C15-finite*) checks="C15 C03" ;;
-    C15-not*) checks="C15 C11" ;;
-    C09-compaction*) checks="C09 C05" ;;
-    C16-cancelled*) checks="C16" ;;
-    C04-version*|C05-version*) checks="C04 C05" ;;
-    *) checks="$id" ;;
-  esac
-  cd /repo
-  if [ -n "$(git status --porcelain --untracked-files=no)" ]; then echo "/repo dirty"; exit 2; fi
-  # plain apply first; 3-way only if needed and only if it merges without conflict
-  if ! git apply /verif/$d/patch.diff 2>/dev/null; then
-    git reset -q; git checkout -- .
-    if ! git apply -3 /verif/$d/patch.diff 2>/dev/null || [ -n "$(git diff --name-only --diff-filter=U)" ]; then
-      git reset -q; git checkout -- .
-      echo "| $n | - | - | patch no longer applies to the current tree (code changed by a later fix) |" >> $TMP
-      cd /verif; continue
+  if needs_repo $n; then [ "$MODE" = "repo" ] || continue; else [ "$MODE" = "hermetic" ] || continue; fi
+  checks=$(checks_for $n)
+  if [ "$MODE" = "hermetic" ]; then
+    S=/tmp/repo-mx
+    git -C /repo worktree list | grep -q "$S" || git -C /repo worktree add --detach $S HEAD -q
+    git -C $S checkout -q --detach $(git -C /repo rev-parse HEAD) 2>/dev/null; git -C $S checkout -- . ; git -C $S clean -fdq -e target
+    if ! git -C $S apply /verif/$d/patch.diff 2>/dev/null; then
+      git -C $S reset -q; git -C $S checkout -- .
+      if ! git -C $S apply -3 /verif/$d/patch.diff 2>/dev/null || [ -n "$(git -C $S diff --name-only --diff-filter=U)" ]; then
+        git -C $S reset -q; git -C $S checkout -- .
+        echo "| $n | - | - | patch no longer applies to the current tree (code changed by a later fix) |" >> $OUT.tmp; continue
+      fi
     fi
+    git -C $S reset -q 2>/dev/null
+    for c in $checks; do
+      case "$c" in C02|C04|C20|C06|C07|C11|C18|C19|C12) E=seqmc ;; C01|C03|C13) E=crashmc ;; C05|C08|C09) E=schedmc ;; esac
+      ( cd /verif/harness && CARGO_TARGET_DIR=/verif/target-mx cargo build --release --offline -p $E --config "paths=[\"$S/engine\"]" ) >/tmp/seed_matrix.build.log 2>&1 || { echo "| $n | $c | build-failed | |" >> $OUT.tmp; continue; }
+      out=$(LD_PRELOAD=/verif/shim/kvshim.so KVSHIM_CLOCK=1 KVSHIM_RAND=1 VERIF_TIER=quick SRVMC_BIN=/verif/target/release/srvmc VERIF_EVIDENCE_DIR=/tmp/ev-mx VERIF_REPLAY_DIR=/tmp/replays-mx /verif/target-mx/release/$E $c quick 2>&1); rc=$?
+      sig=$(echo "$out" | grep -E "distinct new signatures" | sed 's/.*signatures: {//; s/}$//' | cut -d, -f1 | tr -d '"' | cut -c1-110)
+      echo "| $n | $c | $rc | $sig |" >> $OUT.tmp
+    done
+    git -C $S checkout -- .
+  else
+    cd /repo
+    if [ -n "$(git status --porcelain --untracked-files=no)" ]; then echo "/repo dirty"; exit 2; fi
+    if ! git apply /verif/$d/patch.diff 2>/dev/null; then
+      git reset -q; git checkout -- .
+      if ! git apply -3 /verif/$d/patch.diff 2>/dev/null || [ -n "$(git diff --name-only --diff-filter=U)" ]; then
+        git reset -q; git checkout -- .
+        echo "| $n | - | - | patch no longer applies to the current tree (code changed by a later fix) |" >> /verif/$OUT.tmp
+        cd /verif; continue
+      fi
+    fi
+    git reset -q 2>/dev/null
+    cd /verif
+    for c in $checks; do
+      out=$(VERIF_EVIDENCE_DIR=/tmp/ev-seed VERIF_REPLAY_DIR=/tmp/replays-seed bin/check $c quick 2>&1); rc=$?
+      sig=$(echo "$out" | grep -E "distinct new signatures" | sed 's/.*signatures: {//; s/}$//' | cut -d, -f1 | tr -d '"' | cut -c1-110)
+      echo "| $n | $c | $rc | $sig |" >> $OUT.tmp
+    done
+    git -C /repo checkout -- .
   fi
-  git reset -q 2>/dev/null
-  cd /verif
-  for c in $checks; do
-    out=$(VERIF_EVIDENCE_DIR=/tmp/ev-seed VERIF_REPLAY_DIR=/tmp/replays-seed bin/check $c quick 2>&1); rc=$?
-    sig=$(echo "$out" | grep -E "distinct new signatures" | sed 's/.*signatures: {//; s/}$//' | cut -d, -f1 | tr -d '"' | cut -c1-110)
-    echo "| $n | $c | $rc | $sig |" >> $TMP
-  done
-  git -C /repo checkout -- .
 done
-mv $TMP $OUT
-echo done
+mv $OUT.tmp $OUT
+echo "done $MODE: $(wc -l < $OUT) rows"
